@@ -22,6 +22,12 @@ LIFTS = {
         'anchor': r"for\s*\(\s*line_index\s*,\s*segment\s*\)\s+in\s+line\s*\.split\(','\)\s*\.enumerate\(\)\s*\{",
         'expect': [r'parse_vlq_segment_into', r'tokens\.push'],
     },
+    # body of the per-line loop of decode_regular (contains the whole per-segment loop)
+    'decoder_line_body': {
+        'file': 'src/decoder.rs',
+        'anchor': r"for\s*\(\s*dst_line\s*,\s*\(\s*line\s*,\s*rmi_str\s*\)\s*\)\s+in\s+mappings.*?\.enumerate\(\)\s*\{",
+        'expect': [r"split\(','\)", r'tokens\.push', r'decode_rmi', r'dst_col\s*=\s*0'],
+    },
     # body of the per-mapping loop of the function-map decoder in decode_hermes
     'hermes_mapping_body': {
         'file': 'src/hermes.rs',
@@ -298,22 +304,21 @@ PROPS['C16'] = {
         H('c16_n%d' % n, 'sourceview', 'quick' if n <= 2 else 'thorough', 1800, 12,
           'every %d-byte text over {a, b, LF, CR}; optional earlier call; outer get_line(any) with a solver-chosen complete nested '
           'get_line(any) at each yield point where the lock is free; later get_line(any) + line_count' % n,
-          cfg='sourcemap_verif', allow_uncovered=['nested call ran'])
+          cfg='sourcemap_verif')
         for n in (0, 1, 2, 3, 4)
     ] + [
         H('c16_count_n%d' % n, 'sourceview', 'quick' if n <= 2 else 'thorough', 1800, 12,
-          'same with line_count() as the outer call, %d-byte texts' % n, cfg='sourcemap_verif', allow_uncovered=['nested call ran'])
+          'same with line_count() as the outer call, %d-byte texts' % n, cfg='sourcemap_verif')
         for n in (2, 3)
     ] + [
         H('c16_depth2_n%d' % n, 'sourceview', 'thorough', 3600, 14,
-          'nested calls may themselves be interrupted once (depth 2), %d-byte texts' % n, cfg='sourcemap_verif',
-          allow_uncovered=['nested call ran'])
+          'nested calls may themselves be interrupted once (depth 2), %d-byte texts' % n, cfg='sourcemap_verif')
         for n in (2, 3)
     ],
     'assumptions': [
         'sequentialisation argument (DESIGN.md C16): all mutation of the view happens under its mutex, so between the atomic blocks '
         'of one call other threads can only run complete atomic blocks; their cumulative effect equals that of complete nested calls',
-        'hook commit 210a631 (--cfg sourcemap_verif): yield points after the cache probe and after the finished check',
+        'hook commits 210a631, 881b99b (--cfg sourcemap_verif): yield points immediately before the lock is taken, after the cache probe and after the finished check',
         SV_STUBS],
     'trusted': [SV_STUBS, 'std::sync::Mutex as modelled by Kani (single-threaded lock/try_lock)'],
     'outside': ['memory-model effects of Ordering::Relaxed (the argument uses only the mutex happens-before)', 'real-thread stress',
